@@ -83,6 +83,11 @@ func writeFile(p *lang.Process, fn func(io.Reader, string) error) error {
 }
 
 func isFileOpen(p *lang.Process, filename string) bool {
+	if p.Previous == p.Parent {
+		// first command of the code block: there is no pipeline before it
+		// (and the parent isn't a process that will ever start executing)
+		return false
+	}
 	p = p.Previous
 	for {
 		if p.State.Get() < state.Executing {
@@ -91,7 +96,7 @@ func isFileOpen(p *lang.Process, filename string) bool {
 		if lists.Match(p.Parameters.StringArray(), filename) {
 			return true
 		}
-		if !p.IsMethod || p.Id == lang.ShellProcess.Id {
+		if !p.IsMethod || p.Id == lang.ShellProcess.Id || p.Previous == p.Parent {
 			return false
 		}
 		p = p.Previous
